@@ -429,7 +429,7 @@ func (g *G) env(path, avail string) *ye.Node {
 		n := leaf("${{ fromJSON('{\"A\":\"b\"}') }}", path, avail, Leaf{Template: true, Typed: "obj", Config: "env-as-expression"})
 		return n
 	}
-	m := umap("env", true)
+	m := umap("env", false) // letter case of environment variable names: not asserted
 	for k := 0; k < g.i("nenv", 1, 2); k++ {
 		m.Set(g.fresh("ENV_"), tmpl(g.pick("envv", []string{"value", "1", "${{ github.sha }}", "a ${{ github.ref }} b"}), path+".<env_id>", avail))
 	}
@@ -475,7 +475,7 @@ func (g *G) container(path, avail string, allowScalar bool) *ye.Node {
 		c.Set("credentials", cr)
 	}
 	if g.b("cenv") {
-		m := umap("env", true)
+		m := umap("env", false)
 		m.Set(g.fresh("CENV_"), tmpl("v", path+".env.<env_id>", avail+".env.<env_id>"))
 		c.Set("env", m)
 	}
